@@ -225,7 +225,10 @@ FileAt(f, i) ==                                  \* byte i (1-based) of the file
   ELSE f.tail[i - f.padlen - Len(f.data)]
 NoFile == AFile(0, <<>>, <<>>)
 
-\* len bytes of the file starting at byte offset off (0-based), as mmap / read / copy_file_range must deliver them
+\* len bytes of the file starting at byte offset off (0-based), as mmap / read / copy_file_range must deliver them.
+\* f is the file that is at the path NOW: the window is a function of (f, off, len) alone - a file that used to be at
+\* the same path (still mapped by a live tensor, then replaced by rename) has no say.  The harness builds every second
+\* external store on a path with such a history.
 ExtWindow(f, off, len) == [j \in 1..len |-> FileAt(f, off + j)]
 
 Rpt(b, k) == [i \in 1..k |-> b]
@@ -275,6 +278,9 @@ DestInit(dk) ==
 \*                    "strided" - every second element of a buffer, starting at element 1 (must be made contiguous)
 \*                    "colmajor" - the buffer holds the elements in column-major (Fortran) order of the tensor's
 \*                                shape: a transposed / order="F" array; logical (row-major) order must come out
+\*                    "swapped" - the buffer holds every element in the non-native byte order (numpy dtype ">f4",
+\*                                ">i2", ...): same element values; the library may REFUSE such an array (Refusable),
+\*                                but a representation it accepts must deliver the little-endian bytes all the same
 Rep(kind, flav, field, offk, lenGiven, inner, cache, view) ==
   [kind |-> kind, flav |-> flav, field |-> field, offk |-> offk, lenGiven |-> lenGiven, inner |-> inner, cache |-> cache,
    view |-> view]
@@ -297,6 +303,9 @@ TorchOK == {"BFLOAT16", "BOOL", "COMPLEX128", "COMPLEX64", "FLOAT16", "FLOAT", "
             "UINT16", "UINT32", "UINT64", "FLOAT8E8M0", "INT2", "UINT2"}
 
 Views == {"own", "win", "chunk", "strided", "colmajor"}
+\* element types numpy stores natively in more than one byte (the only ones a byte order applies to)
+Swappable == {"FLOAT16", "FLOAT", "DOUBLE", "INT16", "INT32", "INT64", "UINT16", "UINT32", "UINT64", "COMPLEX64", "COMPLEX128"}
+Refusable(rep) == rep.kind = "array" /\ rep.view = "swapped"
 
 \* what a lazy tensor wraps
 InnerRep(inner, cls) ==
@@ -310,7 +319,8 @@ InnerRep(inner, cls) ==
 Base(rep, cls) == IF rep.kind = "lazy" THEN InnerRep(rep.inner, cls) ELSE rep
 
 RepOK0(r, d) ==
-  CASE r.kind = "array"    -> (CASE r.flav = "native" -> TRUE [] r.flav = "bits" -> d \in NonNative [] r.flav = "ctor" -> d # "STRING"
+  CASE r.kind = "array" /\ r.view = "swapped" -> r.flav \in {"native", "ctor"} /\ d \in Swappable
+    [] r.kind = "array"    -> (CASE r.flav = "native" -> TRUE [] r.flav = "bits" -> d \in NonNative [] r.flav = "ctor" -> d # "STRING"
                                  [] r.flav = "sbits" -> d \in {"INT4", "INT2"} [] r.flav = "list" -> d = "STRING")
     [] r.kind = "packed"   -> d \in Numeric /\ BitWidth[d] \in {2, 4}
     [] r.kind = "proto"    -> r.field \in LegalField(d)
@@ -323,6 +333,7 @@ ApplicableDef(rep, cls) == {d \in DTypesOf(cls) : RepOK(rep, d)}
 AllReps ==
   {RArray(f) : f \in {"native", "bits", "ctor", "sbits", "list"}} \cup {RPacked, RTorch}
   \cup {RArrayV(f, v) : f \in {"native", "bits"}, v \in Views \ {"own"}} \cup {RTorchV(v) : v \in Views \ {"own"}}
+  \cup {RArrayV("native", "swapped"), RArrayV("ctor", "swapped")}
   \cup {RProto(f) : f \in Fields}
   \cup {RExt(o, lg) : o \in OffKinds, lg \in BOOLEAN}
   \cup {RLazy("array", FALSE), RLazy("proto", TRUE), RLazy("external", FALSE), RLazy("packed", TRUE),
